@@ -113,7 +113,15 @@ C09_Step(R, i, k) ==
               ELSE /\ cnt <= 1
                    /\ ((\A c \in rin : c * U + 2 * RootT * U < tstar) => cnt = 1)     \* earlier events are kept
                    /\ ((\A c \in rin : c * U - 2 * RootT * U > tstar) => cnt = 0))    \* later ones are not reported
-C09_Inv(R) == \A i \in 1..Len(R.sc.evs) : \A k \in 1..R.K : C09_Step(R, i, k)
+\* an exact zero at a step end may be reported from either adjacent step - but from at least one of them
+\* when the signs on the far sides are strictly opposite in the configured direction
+C09_ZeroEnd(R, i, k) ==
+    LET e == R.sc.evs[i]
+        l == G(e, R.sc.grid[k])  z == G(e, R.sc.grid[k + 1])  r == G(e, R.sc.grid[k + 2])
+        fully == ~(R.intr /\ k + 1 >= R.K)                  \* both steps were processed completely
+    IN  (z = 0 /\ StrictOpp(l, r, e.dir) /\ fully) => CountIn(R, i, k) + CountIn(R, i, k + 1) \in {1, 2}
+C09_Inv(R) == /\ \A i \in 1..Len(R.sc.evs) : \A k \in 1..R.K : C09_Step(R, i, k)
+              /\ \A i \in 1..Len(R.sc.evs) : \A k \in 1..(R.K - 1) : C09_ZeroEnd(R, i, k)
 
 (* ---------------------------------------------------------------- C10 *)
 C10_Stop(R) ==
